@@ -583,8 +583,8 @@ def _keys_hash(run):
     gotk = gotv = None
     if oks:
         for sn in gl.nodes_of(st[0]):
-            gotk = {canon_dict_iter(x) for x in PV.expand_consistent(lp_, None, st[0].targets[0].slice, sn, stop=("pubkeys_map",))}
-            gotv = {canon_dict_iter(x) for x in PV.expand_consistent(lp_, None, st[0].value, sn, stop=("pubkeys_map",))}
+            gotk = {canon_dict_iter(x, dicts=("pubkeys_map",)) for x in PV.expand_consistent(lp_, None, st[0].targets[0].slice, sn, stop=("pubkeys_map",))}
+            gotv = {canon_dict_iter(x, dicts=("pubkeys_map",)) for x in PV.expand_consistent(lp_, None, st[0].value, sn, stop=("pubkeys_map",))}
         oks = gotk == {"KEY(pubkeys_map)"} and gotv == {"ec.PublicKey(bytes.fromhex(VAL(pubkeys_map)), raw=True)"}
     run.check("R3", oks, "every value parsed as a secp256k1 point and stored under its own path", key="load_pubkeys|parse", where=lp_.loc(),
               message=f"load_pubkeys stores result[{sorted(gotk or [])}] = {sorted(gotv or [])}; expected result[path] = ec.PublicKey(bytes.fromhex(<value at path>), raw=True)")
